@@ -19,14 +19,24 @@ EXPLANATION = ("Sink-schedule independence: retry-loop discipline of the vectore
 P = 'object_container_file_encoding::writer::'
 
 
-def run(ctx):
+def complete_write_rules(ctx):
+    """every block reaches the sink completely and in order whatever the sink accepts per call (shared: a file is laid
+    out / round-trips / is valid at quiescent points only if [header, data, sync] is written in full: C05, C06, C15)"""
     f = ctx.f
-    b = fn_by_label(f, P + 'vectored_write_polyfill::write_all_vectored_inner')
+    # the retry loop: the one function of the writer module that hands slices to Write::write_vectored (found by what it
+    # calls, not by its name)
+    cands = [x for x in f.body_list if x.j['kind'] != 'closure' and (fn_label(x).startswith(P) or fn_label(x).startswith('<' + P))
+             and any((t.get('callee') or '') == 'std::io::Write::write_vectored' for bb, t in x.calls())]
+    b = cands[0] if len(cands) == 1 else None
     if b is None:
-        ctx.ob('RETRY', 'anchor', False, None, 'write_all_vectored_inner not found')
+        ctx.ob('RETRY', 'anchor', False, None, 'expected exactly one function calling Write::write_vectored in the container writer, found %d' % len(cands))
     else:
         retry(ctx, b)
-    sink(ctx)
+    sink(ctx, b)
+
+
+def run(ctx):
+    complete_write_rules(ctx)
     errors(ctx)
 
 
@@ -141,16 +151,18 @@ def retry(ctx, b):
     ctx.ob('RETRY', 'interrupted-retries', i_ok, short_loc(b.span), 'ErrorKind::Interrupted re-enters the write without advancing: %s' % i_ok)
     ctx.ob('RETRY', 'other-errors-returned', o_ok, short_loc(b.span), 'any other error from the sink is returned unchanged: %s' % o_ok)
     # the outer wrapper passes all slices, in order
-    w = fn_by_label(ctx.f, P + 'vectored_write_polyfill::write_all_vectored')
+    # (the wrapper is the function that calls the loop)
+    ws = [x for x in ctx.f.body_list if x.j['kind'] != 'closure' and x is not b and any((t.get('resolved') or t.get('callee')) == b.id for bb, t in x.calls())]
+    w = ws[0] if len(ws) == 1 else None
     okw = False
     if w is not None:
-        cs = [(bb, t) for bb, t in w.calls() if cname(t).endswith('write_all_vectored_inner')]
+        cs = [(bb, t) for bb, t in w.calls() if (t.get('resolved') or t.get('callee')) == b.id]
         mp = [(bb, t) for bb, t in w.calls() if 'array' in cname(t) and cname(t).endswith('::map')]
         okw = len(cs) == 1 and len(mp) == 1 and origin(w, mp[0][1]['args'][0]).params() == {2} and origin(w, cs[0][1]['args'][0]).params() == {1}
     ctx.ob('RETRY', 'wrapper-passes-all-slices', okw, short_loc(w.span) if w else None, 'write_all_vectored maps every slice to an IoSlice (array::map keeps order) and hands them to the loop: %s' % okw)
 
 
-def sink(ctx):
+def sink(ctx, loop_fn=None):
     f = ctx.f
     n = 0
     for b in f.body_list:
@@ -167,7 +179,7 @@ def sink(ctx):
             ctx.touched(b, 1)
             if meth == 'write_all':
                 ok, why = True, 'complete-write primitive'
-            elif meth == 'write_vectored' and fl.endswith('write_all_vectored_inner'):
+            elif meth == 'write_vectored' and loop_fn is not None and b is loop_fn:
                 ok, why = True, 'inside the retry loop checked by RETRY'
             else:
                 ok, why = False, 'partial-write or flush primitive used on a sink outside the retry loop'
